@@ -96,6 +96,7 @@ Fixpoint prop_vars (e : expr) : list var :=
   | EProp x _ => [x]
   | EBin _ a b => prop_vars a ++ prop_vars b
   | EUn _ a => prop_vars a
+  | EOpaque _ vs => vs       (* may read a property of any variable it mentions *)
   | _ => []
   end.
 
